@@ -37,6 +37,14 @@ def gen_graph(r):
     for i in range(n):
         ns = r.choice(NSS if r.random() < 0.6 else [NSS[1]])
         base = "T%d" % i
+        # namesakes: the same simple name in the null namespace and in a named one (two different types, two files)
+        if i > 0 and r.random() < 0.25:
+            prev = r.choice(names[:i])
+            pns, _, pbase = prev.rpartition(".")
+            cand_ns = r.choice([x for x in NSS if x != pns])
+            cand = (cand_ns + "." + pbase) if cand_ns else pbase
+            if cand not in names:
+                ns, base = cand_ns, pbase
         names.append((ns + "." + base) if ns else base)
     kinds = ["record"] + [r.choice(["record", "record", "enum", "fixed"]) for _ in range(n - 1)]
     defs = []
@@ -80,7 +88,13 @@ def gen_graph(r):
                     t = {"type": "array", "items": t}
                 elif shape < 0.35:
                     t = {"type": "map", "values": t}
-                elif shape < 0.55:
+                elif shape < 0.41 and isinstance(t, str) and t not in PRIMS:
+                    # one union mentioning the same stored type more than once (directly and through a container);
+                    # kept rare and shallow: generate_one draws ten items for every array and map
+                    t = r.choice([["null", t, {"type": "array", "items": t}],
+                                  [{"type": "array", "items": t}, {"type": "map", "values": t}],
+                                  ["null", {"type": "map", "values": t}, t]])
+                elif shape < 0.6:
                     other = ref() or "string"
                     if isinstance(other, str) and other != t:
                         t = ["null", t, other] if t != "null" and other != "null" else ["null", t]
@@ -251,6 +265,10 @@ def run(tier, seed):
                 random.seed(seed * 1000 + i * 10 + k)
                 try:
                     v = generate_one(ref)
+                    if k > 0 and len(repr(v)) > 200000:
+                        # generate_one draws ten items per array / map: one huge datum per graph is enough
+                        run.tag("data:huge-skipped")
+                        break
                     b1, b2 = io.BytesIO(), io.BytesIO()
                     schemaless_writer(b1, ref, v)
                     schemaless_writer(b2, loaded, v)
